@@ -754,4 +754,32 @@ def carry_pair_rule(chk, facts, rule):
                            'with the word count stepped the other way' if found else
                            '%s %s one radix, but FullWordCnt of %s is not stepped %s in the same block: the position is off by a '
                            'whole word after a wrap' % (show(t), 'gains' if m[1] == '+=' else 'loses', show(base), 'down' if want == '--' else 'up'))
+        # the div/mod form of the same normalisation (MultCodeFill): word count += v / radix, inner part = v % radix.
+        # Quotient and remainder have to be those of one dividend; '(v + radix) % radix' next to 'v / radix' (floor
+        # remainder, truncated quotient) is off by one word for every negative v.
+        def is_radix(e):
+            e = nocast(e)
+            return isinstance(e, (list, tuple)) and e and e[0] == 'm' and e[2].endswith('.ElemsPerFullWord')
+        divs, mods, writes, first = [], [], False, None
+        for b, blk in f.blocks.items():
+            for ln, ex in blk['elems']:
+                for x in walk(ex):
+                    if not isinstance(x, (list, tuple)) or not x:
+                        continue
+                    if x[0] == 'b' and x[1] in ('/', '%') and is_radix(x[3]):
+                        (divs if x[1] == '/' else mods).append(nocast(x[2]))
+                        first = first or ln
+                    if is_assign(x):
+                        t = nocast(x[2])
+                        if t[0] == 'm' and (t[2].endswith('.LastWordFill') or t[2].endswith('.FullWordCnt')):
+                            writes = True
+        if writes and divs and mods:
+            n += 1
+            same = {repr(d) for d in divs} == {repr(d) for d in mods}
+            chk.ob(rule, 'intpseudo.c:%s:div/mod-one-dividend' % f.name, same, f.loc(first),
+                   'quotient and remainder by the radix are taken of the same dividend (%s)' % show(divs[0]) if same else
+                   'the word carry is (%s) / radix but the inner part is (%s) %% radix: quotient and remainder of different '
+                   'dividends - for a negative difference the C quotient truncates toward zero while the biased remainder '
+                   'is the floor remainder, so no word is borrowed and the reservation is one word too long'
+                   % (', '.join(show(d) for d in divs), ', '.join(show(d) for d in mods)))
     return n
